@@ -152,6 +152,7 @@ REGISTRY = {c.pid: c for c in [C04]}
 
 def get(pid):
     import props_core      # noqa: F401  (registers C01, C02, C03, C05, C06, C10)
+    import props_ext       # noqa: F401  (registers C07, C08, C09, C11, C12, C13, C14, C18, C19, C20)
     if pid not in REGISTRY:
         raise SystemExit("no check registered for %s" % pid)
     return REGISTRY[pid]()
